@@ -138,7 +138,7 @@ def main():
             "kind_free_text": "explicit TLA+ specification (/verif/spec) checked by TLC/Apalache; Go recorders replay/record the real packages; TLC validates every recorded event against the specification",
         }],
         "checks": checks,
-        "notes": "Exit 2 from a check means infrastructure failure (no verdict). Known findings: /verif/known_findings.json. Beyond the listed properties: `bin/ext sched` model-checks TunerSched.tla (the tuner's distributed job scheduling) and validates the real server loop against it (DESIGN.md section 14; rules S/..., EXT-MISMATCH, never VIOLATION).",
+        "notes": "Exit 2 from a check means infrastructure failure (no verdict). Known findings: /verif/known_findings.json. Beyond the listed properties: `bin/ext sched|datagen|sampling|fetch` model-check TunerSched.tla / Datagen.tla / Sampling.tla / TunerFetch.tla (the tuner's distributed job scheduling, the data generator's self-play loop, the extractor's binning, the client's download loop) and validate the real code against them (DESIGN.md sections 14-16a; rules S/ D/ E/ F/, printed as EXT-MISMATCH, never VIOLATION).",
         "not_applicable": na,
     }
     with open(os.path.join(VERIF, "MANIFEST.json"), "w") as f:
